@@ -32,4 +32,61 @@ theorem decimal_partial_cmp_eq (prof : Profile) (x y : Dec) (hp : x.nfrac < 256)
     by_cases h : y.coeff < 0 <;> simp [h]
   · rfl
 
+/-! Integer forms (macro bodies instantiated with `u64` / `i64`; the macro is the same text for every listed type). -/
+
+theorem decimal_eq_uint_eq (prof : Profile) (d : Dec) (i : Nat) :
+    Gen.K.decimal_eq_uint prof d i = .ok (decEqInt false d i) := by
+  unfold Gen.K.decimal_eq_uint decEqInt
+  by_cases hn : isNegative d = true
+  · simp [hn]
+  · simp only [hn, Bool.false_eq_true, if_false, Bool.not_false, Bool.true_and]
+    rw [checked_mul_pow_ten_eq prof _ _]
+    simp only [bind_ok']
+    cases checkedMulPowTen (i : Int) d.nfrac <;> rfl
+
+theorem decimal_eq_sint_eq (prof : Profile) (d : Dec) (i : Int) :
+    Gen.K.decimal_eq_sint prof d i = .ok (decEqInt true d i) := by
+  unfold Gen.K.decimal_eq_sint decEqInt
+  rw [checked_mul_pow_ten_eq prof _ _]
+  simp only [bind_ok', Bool.not_true, Bool.false_and, Bool.false_eq_true, if_false]
+  cases checkedMulPowTen i d.nfrac <;> rfl
+
+theorem decimal_cmp_sint_eq (prof : Profile) (d : Dec) (i : Int) :
+    Gen.K.decimal_cmp_sint prof d i = .ok (partialCmpDecInt true d i) := by
+  unfold Gen.K.decimal_cmp_sint partialCmpDecInt
+  rw [checked_mul_pow_ten_eq prof _ _]
+  simp only [bind_ok', if_true]
+  cases checkedMulPowTen i d.nfrac
+  · by_cases h : i ≥ 0 <;> simp [h]
+  · rfl
+
+theorem sint_cmp_decimal_eq (prof : Profile) (i : Int) (d : Dec) :
+    Gen.K.sint_cmp_decimal prof i d = .ok (partialCmpIntDec true i d) := by
+  unfold Gen.K.sint_cmp_decimal partialCmpIntDec
+  rw [checked_mul_pow_ten_eq prof _ _]
+  simp only [bind_ok', if_true]
+  cases checkedMulPowTen i d.nfrac
+  · by_cases h : i < 0 <;> simp [h]
+  · rfl
+
+theorem decimal_cmp_uint_eq (prof : Profile) (d : Dec) (i : Nat) :
+    Gen.K.decimal_cmp_uint prof d i = .ok (partialCmpDecInt false d i) := by
+  unfold Gen.K.decimal_cmp_uint partialCmpDecInt
+  by_cases hn : isNegative d = true
+  · simp [hn]
+  · simp only [hn, Bool.false_eq_true, if_false]
+    rw [checked_mul_pow_ten_eq prof _ _]
+    simp only [bind_ok']
+    cases checkedMulPowTen (i : Int) d.nfrac <;> rfl
+
+theorem uint_cmp_decimal_eq (prof : Profile) (i : Nat) (d : Dec) :
+    Gen.K.uint_cmp_decimal prof i d = .ok (partialCmpIntDec false i d) := by
+  unfold Gen.K.uint_cmp_decimal partialCmpIntDec
+  by_cases hn : isNegative d = true
+  · simp [hn]
+  · simp only [hn, Bool.false_eq_true, if_false]
+    rw [checked_mul_pow_ten_eq prof _ _]
+    simp only [bind_ok']
+    cases checkedMulPowTen (i : Int) d.nfrac <;> rfl
+
 end Fpdec.Kernels
